@@ -313,6 +313,16 @@ def _c12_sweeps():
                        tiers=("quick", "thorough") if kind in ("omap",) else ("thorough",), weight=2.0))
         sw = [{"prog": prog_str(t), "kind": kind, "prekeys": "5", "lv": "2312"} for t in thread_programs(["I7", "I8", "I3", "F7", "T"], 2, 2, keep=useful)]
         L.append(sweep("sweep-%s-2x2" % kind, "c12_assoc", (1, 2), sw, what="%s: every pair of two-operation sequences with at least two insertions" % kind))
+    # node handles: insert(node_type&&) of a node extracted from another container, racing lookups / traversal / plain inserts
+    for kind, lvs in (("ommap", ("3333", "3232")), ("omset", ("3333",)), ("omap", ("3333",)), ("ummap", ("1",)), ("umap", ("1",))):
+        sw = [{"prog": pr, "kind": kind, "prekeys": pk, "lv": lv} for lv in lvs for pk in ("", "7", "3,9") for pr in ("H7|C7|T", "H7|I7|C7", "H7|F7,C7|I8", "H7|H8|T", "H7|C7,C7|N7")]
+        L.append(sweep("sweep-%s-nodehandle" % kind, "c12_assoc", (2, 3), sw, what="%s: insert(node_type&&) of a node extracted from another container (where further nodes followed it) racing count / find / traversal / inserts" % kind,
+                       tiers=("quick", "thorough") if kind in ("ommap", "ummap") else ("thorough",)))
+    qa = ["I7", "I8", "C7"]
+    for kind in ("ummap", "umset"):
+        sw = [{"prog": prog_str(t), "kind": kind, "hash": "const", "prekeys": pk} for pk in ("5", "7") for t in thread_programs(qa, 2, 2, keep=useful)]
+        L.append(sweep("sweep-%s-const-q" % kind, "c12_assoc", (1, 2), sw, what="%s, constant hash (all keys share one split-order key): every pair of sequences of length 1-2 over insert 7 / insert 8 / count 7 with at least two insertions; equivalent keys must stay adjacent" % kind,
+                       tiers=("quick", "thorough") if kind == "ummap" else ("thorough",)))
     return L
 PROPS["C12"] = {
     "explanation": "2-3 threads insert/emplace/find/count/contains and traverse one real container of each family (split-ordered hash list: unordered map/set/multimap/"
